@@ -394,8 +394,8 @@ LexSafe == LET lex == Render(Subject, lay) IN
            /\ \A i \in 1..(Len(lex) - 1) : ~(IsWord(lex[i]) /\ IsWord(lex[i + 1]))
            /\ \A i \in 1..(Len(lex) - 1) : ~(IsBlank(lex[i]) /\ IsBlank(lex[i + 1]))   \* (tidy: one blank lexeme per gap)
 
-\* the canonical rendering is the one-line form of Pipeline!DefText(def, "suffix")
-\* (checked for the cases whose values are plain integers in MC_C16: CanonAgrees)
+\* (that the canonical rendering is Pipeline!DefText(def, "suffix") wherever Pipeline can write the
+\* values is checked in module ProjSyntax, which instantiates both: CanonAgrees)
 
 \* ---- what the harness is told ---------------------------------------------
 \* lexical: only blanks, line ends, comments, empty steps, subscripts differ ->
